@@ -321,11 +321,26 @@ func buildSource(o Op, dir string, log *evLog) (fsutil.FS, *memFS, []interface{}
 		if _, ok := fo["follow"]; ok {
 			opt.FollowPaths = hexList(f.arr("follow"))
 		}
-		ffs, err := fsutil.NewFilterFS(fs, opt)
-		if err != nil {
-			return nil, nil, nil, err
+		// NewFilterFS resolves the follow paths: it has to terminate whatever the links look like (watchdog: 5 s)
+		type nfRes struct {
+			fs  fsutil.FS
+			err error
 		}
-		fs = ffs
+		ch := make(chan nfRes, 1)
+		inner := fs
+		go func() {
+			ffs, err := fsutil.NewFilterFS(inner, opt)
+			ch <- nfRes{ffs, err}
+		}()
+		select {
+		case r := <-ch:
+			if r.err != nil {
+				return nil, nil, nil, r.err
+			}
+			fs = r.fs
+		case <-time.After(5 * time.Second):
+			return nil, nil, nil, errors.New("verif-timeout: NewFilterFS (FollowLinks) did not return within 5 s")
+		}
 	}
 	if fo, ok := o["sfilter2"].(map[string]interface{}); ok {
 		// a second filter stacked on the first one
